@@ -59,6 +59,28 @@ def run(res, case):
                 clients.keep_ping_fresh(spa, W)
                 w0 = len(W.wire)
                 k = op[0]
+                if k == "reconnect":
+                    # the same spa object is disconnected and connected again: a new connection numbers from the start, in both cycles
+                    await spa.disconnect()
+                    await W.sleep(0.3)
+                    w1 = len(W.wire)
+                    await spa.connect()
+                    if not spa.is_connected:
+                        raise SetupFailed("fault-free reconnect of the same spa object failed")
+                    for t in list(tm._tasks):
+                        if t.get_name() in ("SPA:Ping loop", "SPA:Refresh loop") and not t.done():
+                            t.cancel()
+                    await W.sleep(0.05)
+                    proto = spa._protocol
+                    hs2 = [s_ for v, s_ in seq_datagrams(w1) if v in (b"AVERS", b"CURCH", b"SFILE", b"STATU")]
+                    if hs2 != list(range(1, len(hs2) + 1)):
+                        res.fail("C16|wire_async|reconnect|handshake", f"after a reconnect of the same spa object the handshake requests carry {hs2}, expected 1..{len(hs2)}")
+                        return
+                    m = Model()
+                    for _ in range(len(hs2)):
+                        m.next(False)
+                    stats["reconnect"] = True
+                    continue
                 if k not in EXPECT:
                     raise InvalidCase(op)
                 n_exp = 1
@@ -174,3 +196,5 @@ def run(res, case):
         res.label("wire_async-wrap")
     if stats.get("lost"):
         res.label("wire_async-retried-request")
+    if stats.get("reconnect"):
+        res.label("wire_async-reconnect-same-object")
